@@ -259,6 +259,7 @@ def run(ctx):
     has_include_agrees_with_include(ctx)
     definedness_has_one_judge(ctx)
     backward_trims_test_the_character_they_drop(ctx)
+    leftover_identifiers_count_as_zero(ctx)
 
 
 def manifest_keys(ctx):
@@ -751,3 +752,39 @@ def backward_trims_test_the_character_they_drop(ctx):
             ctx.ob("R09.13", "%s|trim(%s)|tests-the-dropped-character" % (f.name, name), ok, f.loc(lp),
                    "end cursor `%s` is %s and the loop tests X[%s]" % (name, style, show(subs)))
     ctx.floor("R09.13", "backward trim loops whose cursor delimits a substr", n, 3)
+
+
+def leftover_identifiers_count_as_zero(ctx):
+    """R09.14: after macro expansion every identifier still standing in an #if expression is replaced by 0 ([cpp.cond]) -
+    ALSO a macro's own name met again while it is being expanded (`#define EPOLLIN EPOLLIN`, glibc's idiom): that name is
+    in the macro table, it is only barred from further expansion.  In expand_manifests() the replacement by "0" may depend
+    on `expand_undefined` and on the spelling (`true`/`false`), not on whether the table knows the name.
+    (Seed S11-C09: `mi == _manifests.end() &&` added; `#if EPOLLIN` kept a bare identifier and the wrong group.)"""
+    db = ctx.db
+    ctx.rule("R09.14", "in expand_manifests the statement that substitutes \"0\" for a leftover identifier is conditioned on expand_undefined and the identifier's spelling only, never on a lookup in _manifests")
+    fs = [g for g in db.functions if g.name == "CPPPreprocessor::expand_manifests"]
+    n = 0
+    for f in fs:
+        iters = set()
+        for y in f.walk():
+            if y.get("k") == "decls":
+                for dd in y["d"]:
+                    if dd.get("init") is not None and any(z.get("k") == "mem" and (z.get("n") or "").endswith("::_manifests") for z in walk(dd["init"])):
+                        iters.add(dd["d"])
+        for y in f.walk():
+            if not (y.get("k") == "call" and callee_short(y) == "operator=" ):
+                continue
+            parts = ([y.get("this")] if "this" in y else []) + list(y.get("a", []))
+            if len(parts) < 2 or not any(z.get("k") == "str" and z.get("v") == "0" for z in walk(parts[1])):
+                continue
+            n += 1
+            conds = []
+            for a in f.ancestors(y):
+                if a.get("k") == "if" and any(z is y for z in walk(a.get("then") or {})):
+                    conds.append(a["c"])
+            bad = [c for c in conds if any((z.get("k") == "mem" and (z.get("n") or "").endswith("::_manifests")) or (z.get("k") == "ref" and z.get("d") in iters) for z in walk(c))]
+            has_flag = any(any(z.get("k") == "ref" and z.get("n") == "expand_undefined" for z in walk(c)) for c in conds)
+            ctx.ob("R09.14", "expand_manifests|identifier->0|independent-of-the-macro-table", has_flag and not bad, f.loc(y),
+                   "a leftover identifier becomes 0 whenever expand_undefined is set" if has_flag and not bad else
+                   ("the substitution also requires `%s`: a macro's own name, left unexpanded, stays in the expression" % show(bad[0])[:70] if bad else "the substitution is not tied to expand_undefined"))
+    ctx.floor("R09.14", "zero substitutions in expand_manifests", n, 1)
